@@ -14,6 +14,7 @@ import EngineModel.Driver.Loop
 import EngineModel.Driver.Text
 import EngineModel.Api.CratesV1Wf
 import EngineModel.Spec.Members
+import EngineModel.TracksV1.Types
 
 open EngineModel EngineModel.Text EngineModel.Pure.Detect
 
@@ -319,6 +320,50 @@ def checkMembersObs (f : Forest.Forest) (s : Members.State) (o : IObs) : Option 
     ((o.perCrate.filter (fun ic => !s.crates.contains ic.id)).map fun ic =>
       chk (ic.tracks.getD [] == []) "members.removed.tracks" (fun _ => s!"removed crate {ic.id} still lists tracks {showOL ic.tracks}")))
 
+/-- C11, derived per-track columns: `filename` is the file-name part of `path`, and the file-extension
+MetaData row (type 13) holds the extension of that file name (NULL when there is none). -/
+def parseOptText (s : String) : Option (Option Name) :=
+  if s == "null" then some none else (parseText s).map some
+
+def parseTrackCols (s : String) : Option (List (Id × Option Name × Option Name)) := do
+  let rs ← splitRows s
+  rs.mapM fun r => match r with
+    | [a, b, c] => do pure ((← a.toInt?), (← parseOptText b), (← parseOptText c))
+    | _ => none
+
+def parseExtRows (s : String) : Option (List (Id × Option Name)) := do
+  let rs ← splitRows s
+  rs.mapM fun r => match r with
+    | [a, b] => do pure ((← a.toInt?), (← parseOptText b))
+    | _ => none
+
+def checkTrackCols (tr : List (Id × Option Name × Option Name)) (ext : List (Id × Option Name)) : Option (String × String) :=
+  firstFail (tr.flatMap fun (id, path, fname) =>
+    match path with
+    | none => []
+    | some p =>
+      let want := TracksV1.getFilename p
+      let wantExt := TracksV1.getExtension want
+      let got := (ext.filter (·.1 == id)).map (·.2)
+      [ chk (fname == some want) "wfraw.track-filename"
+          (fun _ => s!"track {id}: path {hexBytes p}, filename {repr (fname.map hexBytes)}, expected {hexBytes want}"),
+        chk (got == [wantExt] || (wantExt == none && got == [])) "wfraw.track-extension"
+          (fun _ => s!"track {id}: path {hexBytes p}, extension rows {repr (got.map (·.map hexBytes))}, expected {repr (wantExt.map hexBytes)}") ])
+
+def parseIdRows (s : String) : Option (List Id) := do
+  let rs ← splitRows s
+  rs.mapM fun r => match r with
+    | [a] => a.toInt?
+    | _ => none
+
+/-- No MetaData / MetaDataInteger / PerformanceData row of a track that does not exist. -/
+def checkTrackDeps (dep perf ids : List Id) : Option (String × String) :=
+  firstFail [
+    chk (dep.all ids.contains) "wfraw.metadata-of-missing-track"
+      (fun _ => s!"MetaData / MetaDataInteger rows of tracks {dep.filter (fun i => !ids.contains i)} which are not in Track {ids}"),
+    chk (perf.all ids.contains) "wfraw.performancedata-of-missing-track"
+      (fun _ => s!"PerformanceData rows of tracks {perf.filter (fun i => !ids.contains i)} which are not in Track {ids}") ]
+
 def checkWf (o : IObs) : Option (String × String) :=
   match Api.CratesV1.wfFailures o.raw with
   | [] => none
@@ -378,7 +423,7 @@ def stepLine (st : St) (cmd : String) (args : List String) : St × String :=
       else viol st "forest.crate_by_id" s!"crate_by_id({i}) returned {j}"
     | some i, .none_ => if st.forest.live i then viol st "forest.crate_by_id" s!"crate_by_id({i}) found nothing" else (st, "ok")
     | _, _ => viol st "protocol" "getcrate"
-  | "v1.mktrack", [v, _] =>
+  | "v1.mktrack", v :: _ =>
     match r with
     | .ok (some i) =>
       if st.members.tracks.contains i then viol st "members.id-collision" s!"new track got id {i} of a live track"
@@ -394,6 +439,29 @@ def stepLine (st : St) (cmd : String) (args : List String) : St × String :=
   | "cleartracks", [v] => withC st v fun c => judgeMembers st (.clear c) r
   | "v1.save", _ => (st, "ok")
   | "v1.restore", _ => (st, "ok")     -- handled by `stepWithImage`
+  | "v1.trackcols", _ =>
+    match rt with
+    | ["ok", "Track", t, "Ext", e, "Dep", d, "Perf", p, "Ids", i] =>
+      match parseTrackCols t, parseExtRows e, parseIdRows d, parseIdRows p, parseIdRows i with
+      | some tr, some ex, some dep, some perf, some ids =>
+        match checkTrackCols tr ex with
+        | some (tag, d) => viol st tag d
+        | none =>
+          match checkTrackDeps dep perf ids with
+          | some (tag, d) => viol st tag d
+          | none => (st, "ok")
+      | _, _, _, _, _ => viol st "protocol" "unparsable v1.trackcols"
+    | _ => viol st "protocol" "v1.trackcols failed"
+  | "rawq", _ =>
+    -- supporting run-time checks: PRAGMA integrity_check answers one row 'ok', foreign_key_check no row
+    match rt with
+    | ["ok", "(s6f6b)"] | ["ok", "()"] => (st, "ok")
+    | _ => viol st "wfraw.sqlite-check" ("PRAGMA check answered " ++ " ".intercalate rt)
+  | "db.q", _ =>
+    match a, r with
+    | ["verify"], .ok none => (st, "ok")
+    | ["verify"], _ => viol st "wfraw.verify" ("verify() answered " ++ " ".intercalate rt)
+    | _, _ => (st, "ok")
   | "v1.obs", _ =>
     match rt with
     | "ok" :: body =>
